@@ -37,6 +37,23 @@ def translate_docs(docs, tag, want=("ui", "header")):
     return results, rejected
 
 
+def spelled_docs(rng):
+    """One document per spelled literal (strings.SPELLED_LITERALS): `sval: edit.text + <spelling>`.  A spelling qmluic does not
+    support makes the document a syntax error (then there is nothing to run); an accepted one must compute the denoted string."""
+    from .. import strings
+    out = []
+    for sp, den in strings.SPELLED_LITERALS:
+        d = exprdoc.ExprDoc.__new__(exprdoc.ExprDoc)
+        d.rng, d.objects, d.targets, d.features = rng, [ge.ObjSpec(i, c) for i, c in exprdoc.SOURCES], ["t0"], set()
+        lit = ge.N("lit", ge.STR, v=(den, sp), const=True)
+        prog = ge.N("bin", ge.STR, (ge.N("prop", ge.STR, (ge.N("obj", ge.PTR, v="edit", const=True),), v="text"), lit), v="+")
+        d.bindings = [exprdoc.Binding("t0", "sval", ge.STR, prog, ge.print_program(prog, None))]
+        d.source = d.to_qml()
+        d.optional = True
+        out.append(d)
+    return out
+
+
 def run(tier, seed, replay=None):
     v = common.Verdict("C01", tier, seed)
     rng = common.rng_for(seed, "C01", tier)
@@ -44,6 +61,7 @@ def run(tier, seed, replay=None):
     n_states = 24
     cxxmodel.ensure_model()
     docs = [exprdoc.ExprDoc(rng, n_targets=3, max_depth=rng.choice((2, 3, 4)), hostile_strings=(i % 5 == 4)) for i in range(n_docs)]
+    docs += spelled_docs(rng)
     if replay:
         rp = json.load(open(replay))
         docs = [d for d in docs if any(b.src == rp.get("program") for b in d.bindings)]
@@ -66,7 +84,8 @@ def run(tier, seed, replay=None):
             v.violation("panic", "translation panicked: %s" % r["panic"], {"qml": d.source})
             continue
         if not (r.get("built") and not r.get("has_error") and not r.get("has_syntax_error")) or not d.bindings:
-            v.inconc("document still rejected: %r" % [x["message"] for x in r.get("diagnostics", [])][:2])
+            if not getattr(d, "optional", False):
+                v.inconc("document still rejected: %r" % [x["message"] for x in r.get("diagnostics", [])][:2])
             continue
         missing = d.resolve_functions(r["header"])
         live = [bi for bi, b in enumerate(d.bindings) if b.func]
